@@ -927,6 +927,9 @@ def _parts(x):
     from . import sympd
     if isinstance(x, ndarray):
         return x.a, x._dt, True
+    if hasattr(x, "__sym_array__"):
+        v = x.__sym_array__()
+        return v.a, v._dt, True
     if isinstance(x, (sympd.Series,)):
         v = x.values_arr()
         return v.a, v._dt, True
